@@ -19,7 +19,7 @@ for d in sorted(glob.glob(os.path.join(ROOT, "seeded", "*"))):
     what = (m.get("breaks") or m.get("summary") or "").replace("|", "/").replace("\n", " ")
     if len(what) > 150:
         what = what[:147] + "..."
-    det = f"{tier}: `{keys[0]}`" + (f" (+{len(keys) - 1})" if len(keys) > 1 else "") if m.get("detected_by_check") else "**not detected**"
+    det = f"{tier}: `{keys[0]}`" + (f" (+{len(keys) - 1})" if len(keys) > 1 else "") if m.get("detected_by_check") else ("**not detected** (by design: " + m["not_detected_by_design"][:90] + "...)" if m.get("not_detected_by_design") else "obsolete after " + m["obsolete_after_fix"] if m.get("obsolete_after_fix") else "**not detected**")
     rows.append(f"| {name} | {what} | {det} |")
 print("| seeded change | what it changes | detected by |")
 print("|---|---|---|")
